@@ -14,11 +14,11 @@ type Cell struct {
 	Win     Win
 	Dating  string // writer zone name, or "utc-rule"
 	DB      *chsim.DB
-	Samples []Item            // series with one sample each (classes x types)
-	Traces  []Item            // one trace with one span each
-	Shared  []Item            // spans of the one shared trace (trace-by-id endpoint)
-	Profs   []Item            // one profile series with one profile each
-	ByMark  map[string]*Item  // marker -> item
+	Samples []Item             // series with one sample each (classes x types)
+	Traces  []Item             // one trace with one span each
+	Shared  []Item             // spans of the one shared trace (trace-by-id endpoint)
+	Profs   []Item             // one profile series with one profile each
+	ByMark  map[string]*Item   // marker -> item
 	rowItem map[string][]*Item // table -> row index -> item (nil for rows that belong to no item)
 }
 
